@@ -19,18 +19,21 @@ package certificate
 //@ spec func CertType(c *Certificate) int { return int(c.kind[0]) }
 //@ spec func CertLen(c *Certificate) int { return u16(c.len) }
 //@ spec func CertPayload(c *Certificate) []byte { return c.payload }
+//@ spec func CertKind(c *Certificate) []byte { return c.kind }
+//@ spec func CertLenBytes(c *Certificate) []byte { return c.len }
 
 //@ contract ReadCertificate(data []byte) (certificate *Certificate, remainder []byte, err error)
+//@   ensures @C08 fresh(certificate.kind) && fresh(certificate.len) && fresh(certificate.payload)
 //@   ensures @C03 @C01 (err == nil) == (len(data) >= 3 && u16(data[1:3]) <= len(data)-3)
 //@   ensures @C03 err != nil ==> certificate == nil && same(remainder, data)
 //@   ensures @C01 @C03 err == nil ==> CertInv(certificate) && seqeq(CertWire(certificate), data[:3+u16(data[1:3])])
 //@   ensures @C03 err == nil ==> suffix(remainder, data, 3+u16(data[1:3]))
 //@   ensures @C01 err == nil ==> seqeq(certificate.kind, data[0:1]) && seqeq(certificate.len, data[1:3]) && seqeq(certificate.payload, data[3:])
-//@   ensures @C08 err == nil ==> fresh(certificate.kind) && fresh(certificate.len) && fresh(certificate.payload)
 //@   modifies nothing
 
 //@ contract (c *Certificate) Bytes() (b []byte)
 //@   requires c == nil || CertInv(c)
+//@   ensures fresh(b)
 //@   ensures c == nil ==> b == nil
 //@   ensures @C01 CertInv(c) ==> seqeq(b, CertWire(c)) && fresh(b)
 //@   modifies nothing
